@@ -9,8 +9,12 @@ OBLIGATIONS = [
 for q, tier in ((2, 'quick'), (3, 'quick'), (8, 'thorough'), (16, 'thorough')):
     OBLIGATIONS.append(Ob('C07.canon_intvec_q%d' % q, H, 'h_canon_intvec', tier=tier, unwind=3, defines={'QC': q}, backend='kissat',
         bound='q=%d, every int32 vector (INT32_MIN excluded)' % q, covers='OctahedronToolBox::CanonicalizeIntegerVector<int32_t> (64-bit multiply/divide)'))
-for q, tier in ((2, 'quick'), (8, 'thorough'), (11, 'thorough')):
+for q, tier in ((2, 'quick'), (8, 'quick'), (11, 'thorough'), (16, 'thorough'), (24, 'thorough'), (30, 'thorough')):
     OBLIGATIONS.append(Ob('C07.float2oct_q%d' % q, H, 'h_float2oct', tier=tier, unwind=3, defines={'QC': q}, backend='kissat',
         bound='q=%d, every finite float32 vector incl. zero, denormals, 3.4e38' % q,
         covers='OctahedronToolBox::FloatVectorToQuantizedOctahedralCoords<float> (double division, floor), IntegerVectorToQuantizedOctahedralCoords'))
+for q, tier in ((5, 'quick'), (8, 'quick'), (11, 'thorough'), (16, 'thorough')):
+    OBLIGATIONS.append(Ob('C07.float2oct_dir_q%d' % q, H, 'h_float2oct_dir', tier=tier, unwind=3, defines={'QC': q}, backend='kissat',
+        bound='q=%d, every finite float32 vector with a strictly dominant component (|v_i| > 2|v_j|, |v_i| > 1e-5), incl. magnitudes up to FLT_MAX' % q,
+        covers='OctahedronToolBox::FloatVectorToQuantizedOctahedralCoords<float>: direction is preserved (dominant axis and its sign), no loss of range for huge inputs'))
 META = {}
